@@ -646,9 +646,13 @@ def site_templates(lang, site, name, text, pfx):
     raise ValueError(lang)
 
 
-def use_site_program(syn, const_syn):
+def use_site_program(syn, const_syn, renamed=()):
     anno = [m_path("typeshare")]
-    items = [
+    # the user types named in `renamed` are defined in the file under a serde(rename): every mention of them, in whatever
+    # position of the type expression, must then be written with the new name
+    defs = [{"kind": "struct", "attrs": anno + [m_list("serde", [m_nv("rename", lit_s(u + "Rn"))])], "ident": u, "generics": [],
+             "fields": ("named", [field([], "z", t_path("u8"))])} for u in renamed]
+    items = defs + [
         {"kind": "struct", "attrs": anno, "ident": "SiteS", "generics": [("ty", "T")],
          "fields": ("named", [field([], "fzero", syn)])},
         {"kind": "struct", "attrs": anno, "ident": "SiteN", "generics": [("ty", "T")], "fields": ("unnamed", [field([], None, syn)])},
@@ -682,23 +686,26 @@ def use_sites(check, n):
         cfg = rand_cfg(rng, lang, syn)
         # keep the declarations' own names and the Go field name out of the mapping table
         cfg["version_header"] = False
-        progs.append((lang, cfg, syn, csyn))
+        mentioned = [u for u in USER if re.search(r"\b%s\b" % u, render_type(syn))]
+        mapped_words = " ".join(list(cfg.get("type_mappings", {})) + list(cfg.get("type_mappings", {}).values()))
+        ren = mentioned if (mentioned and i % 3 == 1 and not any(u in mapped_words for u in USER)) else []
+        progs.append((lang, cfg, syn, csyn, ren))
     g = Gen(rng)
     reqs, sites = [], []
-    for lang, cfg, syn, csyn in progs:
-        f = use_site_program(syn, csyn)
+    for lang, cfg, syn, csyn, ren in progs:
+        f = use_site_program(syn, csyn, ren)
         mreq, rreq, texts = l2.requests(lang, cfg, [{"crate": "", "file_name": "lib.rs", "path": "src/lib.rs", "file": f}], g)
         reqs.append((mreq, rreq, texts[0]))
         ft = [mk_requests(lang, cfg, ["T"], syn)[1]]
         if csyn is not None:
             ft.append(mk_requests(lang, cfg, [], csyn)[1])
         sites.append(ft)
-    mans = model([m for m, _, _ in reqs], names={"SiteS", "SiteN", "SiteA", "SITEC", "fzero"})
+    mans = model([m for m, _, _ in reqs], names={"SiteS", "SiteN", "SiteA", "SITEC", "fzero", "z"} | set(USER) | {u + "Rn" for u in USER})
     rans = runner([r for _, r, _ in reqs])
     flat = [x for ft in sites for x in ft]
     fans = runner(flat)
     pos = 0
-    for (lang, cfg, syn, csyn), (mreq, rreq, src), ft, ma, ra in zip(progs, reqs, sites, mans, rans):
+    for (lang, cfg, syn, csyn, ren), (mreq, rreq, src), ft, ma, ra in zip(progs, reqs, sites, mans, rans):
         answers = fans[pos:pos + len(ft)]
         pos += len(ft)
         check.saw(("site", lang, src, json.dumps(cfg, sort_keys=True)), nontrivial=True)
@@ -709,12 +716,24 @@ def use_sites(check, n):
         if "ok" in ra and "ok" in ty:
             out = "".join(ra["ok"].values())
             text = ty["ok"]
+            if ren:
+                check.count("use-sites-with-renamed-user-types")
+                pfx_ = re.escape(cfg.get("prefix", "")) if lang in ("swift", "kotlin") else ""
+                text = re.sub(r"(?<![A-Za-z0-9_])(%s)(%s)(?![A-Za-z0-9_])" % (pfx_, "|".join(ren)), r"\1\2Rn", text)
             wanted = [("field", "fzero"), ("newtype", "SiteN"), ("alias", "SiteA")]
             for site, name in wanted:
                 if not contains_line(out, site_templates(lang, site, name, text, cfg.get("prefix", ""))):
                     check.violation("%s: the %s use site does not carry the translation `%s` of `%s`" % (lang, site, text, render_type(syn)),
                                     case=case, impl=ra, model=ma, failing_input=True)
                     return True
+            if lang == "scala":
+                # the unsigned primitives translate to names that only exist through the alias block of the same file
+                body = re.sub(r"(?m)^type U\w+ = \w+$", "", out)
+                for nm in ("UByte", "UShort", "UInt", "ULong"):
+                    if re.search(r"\b%s\b" % nm, body) and not re.search(r"(?m)^type %s = " % nm, out):
+                        check.violation("scala: `%s` translates to a type mentioning `%s`, which the generated file does not define (no `type %s = ..` line)"
+                                        % (render_type(syn), nm, nm), case=case, impl=ra, model=ma, failing_input=True)
+                        return True
             if csyn is not None and "ok" in answers[1]:
                 if not contains_line(out, site_templates(lang, "const", "SITEC", answers[1]["ok"], "")):
                     check.violation("%s: the const use site does not carry the translation `%s` of `%s`" % (lang, answers[1]["ok"], render_type(csyn)),
